@@ -489,6 +489,9 @@ func c11CheckValid(c *Ctx, q *aQuery, sf aSurface) {
 		key = s
 	}
 	c.Count(key)
+	if c.Res.Evaluations%4096 == 0 {
+		vrt.Forget()
+	}
 	var p *mapr.Query
 	var err error
 	var pv interface{}
@@ -599,6 +602,65 @@ func c11CheckInvalid(c *Ctx) {
 				c.Violation("malformed-query-accepted:"+iv.Class, fmt.Sprintf("malformed query %q (%s) accepted", s, iv.Class), map[string]string{"query": s})
 			}
 		}
+	}
+}
+
+// c11Histories: the parser must not remember: groups of queries that differ only INSIDE a quoted string or a
+// back-quoted name (amount and kind of white space, letter case, a trailing blank) are parsed one after the other
+// in one process, in every order, and every result is compared with its own denotation.
+func c11Histories(c *Ctx) {
+	str := func(v string) aArg { return aArg{`"` + v + `"`, v, "String"} }
+	fld := func(v string) aArg { return aArg{"`" + v + "`", v, "Field"} }
+	g := aArg{"g", "g", "Field"}
+	var groups [][]*aQuery
+	for _, vals := range [][]string{{"a b", "a  b", "a\tb", " a b", "a b "}, {"Abc", "abc", "ABC"}, {"x,y", "x, y", "x ,y"}} {
+		var grp, grp2, grp3 []*aQuery
+		for _, v := range vals {
+			grp = append(grp, c11Build([]aSel{c11SelItems[0]}, "t", []aCond{{g, "contains", str(v)}}, 0, 0, nil, -1, -1, nil, ""))
+			grp2 = append(grp2, c11Build([]aSel{c11SelItems[0]}, "", nil, 0, 0, nil, -1, -1, &aOut{`"` + v + `.csv"`, v + ".csv", false}, ""))
+			grp3 = append(grp3, c11Build([]aSel{c11SelItems[0]}, "t", []aCond{{fld(v), "eq", g}}, 0, 0, nil, -1, -1, nil, ""))
+		}
+		groups = append(groups, grp, grp2)
+		if !strings.ContainsAny(strings.Join(vals, ""), " ,\t") {
+			groups = append(groups, grp3) // a back-quote escapes one token: no blanks or commas inside (grammar)
+		}
+	}
+	{
+		var grp []*aQuery
+		for _, v := range []string{"from", "From", "FROM", "select"} {
+			grp = append(grp, c11Build([]aSel{c11SelItems[0]}, "t", []aCond{{fld(v), "eq", g}}, 0, 0, nil, -1, -1, nil, ""))
+		}
+		groups = append(groups, grp)
+	}
+	var perm func(qs []*aQuery, k int, f func([]*aQuery))
+	perm = func(qs []*aQuery, k int, f func([]*aQuery)) {
+		if k == len(qs) {
+			f(qs)
+			return
+		}
+		for i := k; i < len(qs); i++ {
+			qs[k], qs[i] = qs[i], qs[k]
+			perm(qs, k+1, f)
+			qs[k], qs[i] = qs[i], qs[k]
+		}
+	}
+	for _, grp := range groups {
+		if len(grp) > 4 {
+			grp = grp[:4]
+		}
+		perm(grp, 0, func(order []*aQuery) {
+			// a fresh parser state for every order: package-level state is re-initialised at the start of a run
+			vrt.Run(vrt.Config{MaxSteps: 1 << 40, Horizon: 1000 * time.Hour}, func() {
+				args := DefaultArgs()
+				args.Logger = "none"
+				args.LogLevel = "error"
+				StartEnv(source.Client, &args, nil)
+				for _, q := range order {
+					c11CheckValid(c, q, aSurface{By: true})
+					c11CheckValid(c, q, aSurface{By: true, WS: 2})
+				}
+			})
+		})
 	}
 }
 
@@ -716,12 +778,15 @@ func init() {
 			"group, order/rorder, set incl. nested functions, interval, limit, outfile [append], logformat); each is rendered to text and parsed by mapr.NewQuery; " +
 			"product A = all clause combinations in canonical surface, B = every single where condition and pairs under 9 surfaces, C = a reduced abstract set under every " +
 			"clause order (canonical, reversed, rotations) x keyword case x separator x optional 'by' x 'and' style x white-space style (blank, newline, tab, double blank, CRLF, indented newline); the parsed fields and a one-line evaluation of where/set " +
-			"must equal the denotation; 39 malformed classes x 3 spellings must be rejected without panic; non-trivial = query has where/set or a non-canonical surface",
+			"must equal the denotation; 39 malformed classes x 3 spellings must be rejected without panic; plus histories: 8 groups of up to 4 queries that differ only inside a quoted string (white space, letter case, comma) or in the letter case of a back-quoted name parsed in one process in every order, each compared with its own denotation; non-trivial = query has where/set or a non-canonical surface",
 		Assumptions: []string{
 			"aggregation and function names are written in lower case and string operators get field/quoted operands, float operators get field/number operands (other spellings are ambiguous in the documented grammar and excluded so that the check never demands more than the statement)",
 			"empty quoted strings are excluded (ambiguous)",
 		},
 		Run: func(c *Ctx) {
+			if c.Shard == 0 {
+				c11Histories(c)
+			}
 			res := vrt.Run(vrt.Config{MaxSteps: 1 << 40, Horizon: 1000 * time.Hour}, func() {
 				args := DefaultArgs()
 				args.Logger = "none"
